@@ -370,3 +370,32 @@ func (s *Set) TypeID(n Node) string {
 	}
 	return ""
 }
+
+// AllMembers builds an instance of an object node with every declared member
+// present (lists with one element, maps with one entry); depth limits nesting.
+func (s *Set) AllMembers(n Node, depth int) any {
+	if s.Kind(n) != "object" || depth <= 0 {
+		return s.Sample(n, 0)
+	}
+	out := map[string]any{}
+	names, nodes := s.Props(n)
+	for _, name := range names {
+		if strings.HasPrefix(name, "$") {
+			continue
+		}
+		c := nodes[name]
+		switch s.Kind(c) {
+		case "array":
+			if it, ok := s.Items(c); ok {
+				out[name] = []any{s.AllMembers(it, depth-1)}
+			}
+		case "map":
+			out[name] = map[string]any{"abc": "ABC"}
+		case "object":
+			out[name] = s.AllMembers(c, depth-1)
+		default:
+			out[name] = s.Sample(c, 0)
+		}
+	}
+	return out
+}
